@@ -8,6 +8,7 @@ import (
 // sendOptionalWithContext sends to a channel if it is non-nil.
 func sendOptionalWithContext[T any](ctx context.Context, ch chan<- T, value T) error {
 	if ch == nil {
+		verifEvent("send.nil", 0, 0)
 		return nil
 	}
 	return sendWithContext(ctx, ch, value)
@@ -35,13 +36,16 @@ func sendToChannelsWithContext[T any](ctx context.Context, channels []chan T, va
 func sendWithContext[T any](ctx context.Context, ch chan<- T, value T) error {
 	select {
 	case ch <- value:
+		verifEvent("send.ok", 0, 0)
 		return nil
 	default:
 	}
 	select {
 	case ch <- value:
+		verifEvent("send.ok", 1, 0)
 		return nil
 	case <-ctx.Done():
+		verifEvent("send.giveup", 0, 0)
 		return ctx.Err()
 	}
 }
